@@ -41,3 +41,8 @@ var exemptionsC14 = map[string]string{
 
 var exemptionsC20 = map[string]string{
 }
+
+var exemptionsC18 = map[string]string{
+	`env.NewSubordinateEnvWithBinds | assert p0.(*env.Env)`: "documented assumption: EnvType values are the module's own *env.Env (the only implementation in the module)",
+	`env.NewSubordinateEnv | assert p0.(*env.Env)`:          "documented assumption: EnvType values are the module's own *env.Env (the only implementation in the module)",
+}
